@@ -148,7 +148,7 @@ def run(ctx):
     if meta:
         ctx.sample(meta[len(meta) // 2])
     # ---- histories ----
-    for h in range(12 if ctx.is_quick else 120):
+    for h in range(48 if ctx.is_quick else 240):
         seed = int(rng.integers(0, 1000))
         for name, mk, task, (pname, pval) in learners(seed):
             m = mk()
